@@ -95,7 +95,13 @@ func ReqType(r any) uint16 { return 0 }
 //@ pure
 //@ end
 
+// ReqTrunc(r): the truncated token key id a request object reports (a pure function of the object, like ReqType).
+//
+//@ spec opaque
+func ReqTrunc(r any) uint8 { return 0 }
+
 //@ iface ($PKG.TokenRequestWithDetails).TruncatedTokenKeyID func(r TokenRequestWithDetails) (id uint8)
+//@ ensures id == ReqTrunc(r)
 //@ assigns none
 //@ pure
 //@ end
